@@ -3,6 +3,7 @@ package main
 import (
 	"fmt"
 	"os"
+	"strconv"
 	"time"
 )
 
@@ -16,9 +17,13 @@ import (
 // the reference does not return either, that is a harness error; if both
 // return, the stall was not a hang and the run continues. In both cases the run is ended: a stuck
 // goroutine cannot be stopped. No verdict other than HANG depends on time.
-const stallLimit = 90 * time.Second
+var stallLimit = 90 * time.Second // VERIF_C13_STALL_S overrides (used to test the watchdog itself)
 
 func (d *driver) watchdog() {
+	if v, err := strconv.Atoi(os.Getenv("VERIF_C13_STALL_S")); err == nil && v > 0 {
+		stallLimit = time.Duration(v) * time.Second
+	}
+
 	last := make([]uint64, len(d.workers))
 	since := make([]time.Time, len(d.workers))
 
@@ -121,7 +126,7 @@ func (d *driver) stalled(w *worker) {
 	x := args3{a: args, n: n}
 	fn := map[string]int{"single": fClean, "pair": fRel, "triple": fJoin3, "match": fMatch, "iter": fIterParts, "abs": fAbs}[kind]
 	hw := newWorker()
-	hw.record(o, fn, kind+":"+o.classOf(x), "returns", "HANG(no progress for 90s; the reference returns)", o.volCause(x), "",
+	hw.record(o, fn, kind+":"+o.classOf(x), "returns", "HANG(no progress; the same call repeated in a fresh goroutine does not return in 20s; the reference returns)", o.volCause(x), "",
 		func() example { return example{Args: x.slice(), Want: "returns", Got: "does not return"} }, x.size())
 	d.workers = append(d.workers, hw)
 	d.aborted = fmt.Sprintf("watchdog: %s %s%q never returned", o.name, kind, args[:n])
